@@ -222,41 +222,47 @@ def sup_digit_sub_guarded_by_is_ascii_digit(P):
 
 
 def sup_unfilled_index(P):
+    """every value that can reach the index is the enumerate() counter of the posting loop (wrapped by Tracked::new and
+    remembered in `unfilled`), and that loop pushes exactly one posting per completed iteration"""
     b = P.body("okane_core::report::book_keeping::add_transaction")
     idx_sites = mir.call_sites(b, ["std::ops::Index::index", "std::ops::IndexMut::index_mut"])
     if not idx_sites:
         return False, "no index site"
+
+    def is_counter(body, op):
+        return q.all_roots(body, op, lambda x: x.kind == "call" and x.name.endswith("Iterator>::next") and "Enumerate" in x.name
+                           and tuple(x.fields[-1:]) == ("0",))
+    news = []
     for bb, t in idx_sites:
-        # the index must be the payload of `unfilled`, whose Some values are Tracked::new(i, ..)
-        # with i the enumerate() counter
-        rs = prov(b, t["args"][1])
-        for r in rs:
+        for r in prov(b, t["args"][1]):
             if r.kind == "agg" and r.name.endswith("Option::None"):
-                continue
-            if r.kind == "call" and r.name.endswith("Option::replace"):
+                continue            # the empty slot: not a Some payload
+            if r.kind == "call" and (r.name.endswith("Option::replace") or r.name.endswith("Option::take")):
+                continue            # the slot's previous content: the same values again
+            if r.kind == "call" and r.name.endswith("Tracked::new") and r.site is not None:
+                if not is_counter(b, b.term(r.site)["args"][0]):
+                    return False, "the remembered index is not the enumerate() counter: %s" % mir.prov_strs(b, b.term(r.site)["args"][0])
+                news.append(r.site)
                 continue
             return False, "index root %s" % mir.show_root(r)
-    reps = mir.call_sites(b, ["std::option::Option::replace"])
-    if len(reps) != 1:
-        return False, "expected one Option::replace on unfilled"
-    rbb, rt = reps[0]
-    val = rt["args"][1]
-    ok = False
-    for r in prov(b, val):
-        if r.kind == "call" and r.name.endswith("Tracked::new") and r.site is not None:
-            a0 = b.term(r.site)["args"][0]
-            if q.all_roots(b, a0, lambda x: x.kind == "call" and x.name.endswith("Iterator>::next") and "Enumerate" in x.name
-                           and tuple(x.fields[-1:]) == ("0",)):
+    # what Option::replace stores is such a value too
+    for rbb, rt in mir.call_sites(b, ["std::option::Option::replace"]):
+        ok = False
+        for r in prov(b, rt["args"][1]):
+            if r.kind == "call" and r.name.endswith("Tracked::new") and r.site is not None and is_counter(b, b.term(r.site)["args"][0]):
                 ok = True
-    if not ok:
-        return False, "unfilled is not set from the enumerate() index: %s" % mir.prov_strs(b, val)
+                news.append(r.site)
+        if not ok:
+            return False, "unfilled is not set from the enumerate() index: %s" % mir.prov_strs(b, rt["args"][1])
+    if not news:
+        return False, "no Tracked::new(i, ..) of the loop counter reaches the slot"
     # one push per iteration: every back edge of the posting loop passes the push
     pushes = q.blocks_calling(b, ["bumpalo::collections::Vec::push"])
     loops = b.loops()
-    lp = [h for h, blks in loops.items() if rbb in blks]
+    lp = [h for h, blks in loops.items() if all(n in blks for n in news)]
     if len(pushes) != 1 or not lp:
         return False, "push / loop not found"
-    h = lp[0]
+    h = min(lp, key=lambda x: len(loops[x]))
     for (u, v) in b.back_edges():
         if v == h:
             # u reachable from header only through the push block
@@ -732,16 +738,55 @@ class Surface:
         bodies = self.views(bodies)
         self.chk.rule(R_RANGE, "no consuming call on an unbounded std iterator (RangeFrom, repeat, ...)")
         r = panics.range_from_sources(self.P, bodies)
+        self.deferred_ranges = getattr(self, "deferred_ranges", [])
         for inst in r:
+            if "Successors<" in inst.detail and inst.key not in self.entries:
+                # `successors(first, |x| next(x))` is a loop written as an iterator: judged with the function's loop
+                self.deferred_ranges.append(inst)
+                continue
             self.settle(R_RANGE, inst.key, inst.body.loc(inst.bb), inst.detail, None)
         return r
+
+    def _settle_deferred(self):
+        for inst in getattr(self, "deferred_ranges", []):
+            fn = inst.key.split("|", 1)[0]
+            k = getattr(self, "respelled", {}).get(fn)
+            if k is not None:
+                self.chk.ok(R_RANGE, inst.key, inst.body.loc(inst.bb), "the successors() iterator is the function's tabled loop (%s): %s"
+                            % (k.split("|", 1)[1], self.entries[k]["reason"]))
+            else:
+                self.settle(R_RANGE, inst.key, inst.body.loc(inst.bb), inst.detail, None)
+        self.deferred_ranges = []
+
+    def _respelled_loop(self, inst, present):
+        """a loop written with another iteration construct (`while let Some(x) = f(x)` <-> `for x in successors(..)`):
+        the function's only vanished loop entry, when this is the function's only unreviewed loop"""
+        fn = inst.key.split("|", 1)[0]
+        gone = [k for k in self.entries if k.split("|", 1)[0] == fn and "|loop|" in k and k not in present and k not in self.used]
+        return gone[0] if len(gone) == 1 else None
 
     def loops(self, bodies):
         bodies = self.views(bodies)
         self.chk.rule(R_LOOP, "every natural loop exits on None of a finite std iterator, or is tabled")
         loops = panics.loop_sources(self.P, bodies)
+        present = set(i.key for i, w in loops)
+        open_by_fn = {}
         for inst, why in loops:
+            if not why and inst.key not in self.entries and ("%s|%s" % (R_LOOP, inst.key)) not in self.chk.known:
+                open_by_fn.setdefault(inst.key.split("|", 1)[0], []).append(inst)
+        self.respelled = {}
+        for inst, why in loops:
+            fn = inst.key.split("|", 1)[0]
+            if not why and inst.key not in self.entries and len(open_by_fn.get(fn, [])) == 1:
+                k = self._respelled_loop(inst, present)
+                if k is not None and self.support_ok(self.entries[k].get("support", [])):
+                    self.used.add(k)
+                    self.respelled[fn] = k
+                    self.chk.ok(R_LOOP, inst.key, inst.body.loc(inst.bb), "table (the function's loop, written with another construct; entry %s): %s"
+                                % (k.split("|", 1)[1], self.entries[k]["reason"]))
+                    continue
             self.settle(R_LOOP, inst.key, inst.body.loc(inst.bb), inst.detail, why)
+        self._settle_deferred()
         return loops
 
     def sccs(self, bodies):
@@ -759,6 +804,7 @@ class Surface:
         return n
 
     def finish(self, report_stale=True):
+        self._settle_deferred()
         for n, (ok, detail) in sorted(self.sup_cache.items()):
             if ok:
                 self.chk.ok(R_SUP, n, "", detail)
